@@ -154,6 +154,8 @@ def run_check(pid, tier, spec):
             else:
                 new_violations.append(v)
         for key, n in st["by_signature"].items():
+            if n == 0:
+                continue
             prop, sig = key.split("|", 1)
             if sig in known_hits:
                 known_hits[sig]["n"] += n
